@@ -253,7 +253,7 @@ func main() {
 	r := cfg.Rand
 	n := 1500
 	if cfg.Thorough() {
-		n = 40000
+		n = 20000
 	}
 	words := []string{"hello", "error:", "x", "", " ", "rm -rf", "[E]", "] ", " ["}
 	randStamp := func() string {
